@@ -112,6 +112,13 @@ impl PCheck for C01 {
                 if g != expected {
                     return Verdict::Violated { property: self.property, what: "first match differs from the ECMAScript reference model".into(), observed: show_opt(&g), expected: show_opt(&expected) };
                 }
+                // the other executor answers the same question (the semantics are the engine's, not one executor's)
+                #[cfg(feature = "re-pikevm")]
+                if let Guarded::Ok(pg) = engine::find_first(&p.re, hay, start, Api::Pike, FUEL) {
+                    if pg != expected {
+                        return Verdict::Violated { property: self.property, what: "first match of the PikeVM executor differs from the ECMAScript reference model".into(), observed: show_opt(&pg), expected: show_opt(&expected) };
+                    }
+                }
                 if self.nontrivial_iff_matched {
                     return Verdict::Held { nontrivial: expected.is_some() };
                 }
